@@ -130,6 +130,15 @@ func (e *Eval) Prepare(flags ...[]byte) error {
 	}
 
 	//
+	// Each preparation starts afresh: whatever an earlier call of
+	// Prepare compiled is replaced, not added to.
+	//
+	e.instructions = nil
+	e.constants = nil
+	e.functions = make(map[string]environment.UserFunction)
+	e.depth = 0
+
+	//
 	// Compile the program to bytecode
 	//
 	err = e.compile(program)
